@@ -43,6 +43,7 @@ def check(model: Model, rep: Report, tier: str):
     r5(model, rep)
     r6(model, rep)
     r7(model, rep)
+    r8(model, rep)
 
 
 # ---------------------------------------------------------------------------------------------
@@ -553,3 +554,16 @@ def r7(model: Model, rep: Report):
                       found=f"chained when [{show(p.cond)}]", required="whenever the graph is not empty", what="guard of the chain link is not 'graph not empty'",
                       detail="chain-guard")
     rep.floor("return paths of extend", n_ret, 2)
+
+
+def r8(model: Model, rep: Report):
+    """The duration a nested block contributes to the equations of whatever follows it (shared with C04.D1/D2)."""
+    from .c04 import duration_rule
+    sub = Report(rep.prop_id, rep.tier, rep.src_root, quiet=True, write=False)
+    duration_rule(model, sub)
+    rep.rule("C01.R8", "the duration a nested block feeds into the equations (its own JOINED_END, and every FOLLOWED_BY successor) is "
+                       "latest end minus earliest start over ALL contained operations (= C04.D1/D2)")
+    for o in sub.obligations:
+        o = dict(o)
+        o["rule"] = "C01.R8"
+        rep.obligations.append(o)
